@@ -170,6 +170,25 @@ def mkCal (month : Int → Int) (a : CalArgs) : Cal :=
   { t0 := a.t0.getD TMIN, t1 := a.t1.getD TMAX, weekend := a.weekend.getD [5, 6],
     hol := a.hol.getD [], adj := .m, month := month }
 
+/-! ### the object boundary: holidays and range endpoints are handed over as python objects carrying a time of day
+(`datetime.date`: midnight; `datetime.now()`, `Timestamp('… 09:00')`).  `Calendar.__init__` floors them to days:
+`self.holidays = [ymd(h) for h in holidays]` (defect C05-D2, fix 8faae3e) and `t0, t1 = [ymd(t) for t in date_range(t0, t1)]`
+(_drange.py:382, defect C05-D3, fix cff0dc3).  An instant is `ordinal * DAYUS + microseconds of the day`. -/
+
+/-- microseconds per day -/
+def DAYUS : Int := 86400000000
+
+/-- `ymd(t).toordinal()` of an instant: the day it lies in -/
+def floorDay (us : Int) : Int := us / DAYUS
+
+/-- `ymd` over the date-valued arguments of `Calendar(...)` -/
+def CalArgs.floor (a : CalArgs) : CalArgs :=
+  { hol := a.hol.map fun hs => hs.map floorDay, weekend := a.weekend, t0 := a.t0.map floorDay, t1 := a.t1.map floorDay }
+
+/-- `Calendar(key, holidays, weekend, t0, t1)` for holidays and range endpoints given as INSTANTS (objects with a time of day):
+the constructor floors them, the calendar is the one of the days -/
+def mkCalT (month : Int → Int) (a : CalArgs) : Cal := mkCal month a.floor
+
 abbrev Registry := List (String × Cal)
 
 def Registry.get? (r : Registry) (k : String) : Option Cal := (r.find? (·.1 == k)).map (·.2)
